@@ -45,7 +45,7 @@ def gen_iri_graph(rng):
             g.append((n, RDF_TYPE, I('C%d' % c)))
         for pi in range(rng.randint(0, 3)):
             r = rng.random()
-            o = L('v%d' % rng.randint(0, 5), rng.choice(gen.DTS[:3])) if r < 0.5 else rng.choice(nodes) if r < 0.85 else I('ext%d' % rng.randint(0, 3))
+            o = L(rng.choice(['M\u00e1laga', 'na\u00efve', '\u00e9t\u00e9 2', '\u6771\u4eac']) if rng.random() < 0.25 else 'v%d' % rng.randint(0, 5), rng.choice(gen.DTS[:3])) if r < 0.5 else rng.choice(nodes) if r < 0.85 else I('ext%d' % rng.randint(0, 3))
             g.append((n, EX + 'p%d' % pi, o))
     if rng.random() < 0.3:
         # incoming links of one property from blank nodes AND from IRIs without a class (with inverse_paths they merge into one NONLITERAL
